@@ -655,3 +655,93 @@ Proof.
     + destruct EM as (qs & -> & Hq). exists qs. repeat split; [exact Hq].
     + exact EM.
 Qed.
+
+(* ================================================================== sbdf_obj_read_arr / sbdf_obj_read for string and binary types *)
+Theorem obj_read_arr_arrays_source rf rp fo po k sx m h v : Forall byte sx -> is_arr v = true ->
+  exists f0, forall f, (f0 <= f)%nat ->
+  match read_int32 false sx with
+  | Err st => exists fin, callC prog_env f prog_sbdf_obj_read_arr [VPtr rf fo; VInt v; VPtr rp po] m k sx h = OReturn (VInt st) fin /\
+                inb fin = m /\ lookup cells_var (vars fin) = Some (VHeap h)
+  | Ok (cnt, s1) =>
+    match arr_spec k s1 m v cnt 1 with
+    | EOk qs k' s' m' => exists fin,
+        callC prog_env f prog_sbdf_obj_read_arr [VPtr rf fo; VInt v; VPtr rp po] m k sx h = OReturn (VInt SBDF_OK) fin /\
+        lookup "*array" (vars fin) = Some (VCell (List.length h) 0) /\ lookup cells_var (vars fin) = Some (VHeap (arr_heap h v cnt qs [])) /\ zlen qs = cnt /\
+        inb fin = m' /\ lookup strm_var (vars fin) = Some (VBytes s') /\ lookup fail_var (vars fin) = Some (VInt k')
+    | EErr st => exists fin,
+        callC prog_env f prog_sbdf_obj_read_arr [VPtr rf fo; VInt v; VPtr rp po] m k sx h = OReturn (VInt st) fin /\
+        lookup "*array" (vars fin) = Some VNull /\
+        (lookup cells_var (vars fin) = Some (VHeap h) \/ lookup cells_var (vars fin) = Some (VHeap (h ++ [None])) \/ lookup cells_var (vars fin) = Some (VHeap (h ++ [None; None]))) /\
+        prefix_of m (inb fin)
+    end
+  end.
+Proof.
+  intros Hs Ha. pose proof (obj_read_arr_bs rf rp fo po v VUndef (VInt 0) k sx h m [] Hs) as A.
+  destruct (read_int32 false sx) as [[cnt s1]|st] eqn:ER.
+  - assert (Hc : int_min <= cnt <= int_max) by (eapply read_int32_range; [exact Hs|exact ER]).
+    pose proof (read_int32_bytes sx cnt s1 Hs ER) as Hs1.
+    pose proof (read_objects_arr_bs (VInt 0) [] rf rp fo po k s1 h m v cnt 1 VUndef Hs1 Hc Ha) as B.
+    destruct (arr_spec k s1 m v cnt 1) as [qs k' s' m'|st].
+    + destruct B as (l' & B & Hz). destruct (A _ _ _ _ _ _ _ B eq_refl) as (cn & e & B2).
+      destruct (bsE_sound _ _ _ _ B2) as (f0 & F). exists f0. intros f Hf. eexists. split; [apply F; exact Hf|]. repeat split; try reflexivity. exact Hz.
+    + destruct B as (l' & k' & s' & h' & m' & B & Hh & Pf). destruct (A _ _ _ _ _ _ _ B eq_refl) as (cn & e & B2).
+      destruct (bsE_sound _ _ _ _ B2) as (f0 & F). exists f0. intros f Hf. eexists. split; [apply F; exact Hf|]. split; [reflexivity|]. split; [|exact Pf].
+      destruct Hh as [->|[->| ->]]; [left|right; left|right; right]; reflexivity.
+  - destruct A as (cn & e & r & sx' & B). destruct (bsE_sound _ _ _ _ B) as (f0 & F). exists f0. intros f Hf. eexists. split; [apply F; exact Hf|]. split; reflexivity.
+Qed.
+
+(* sbdf_obj_read: one element that is not packed *)
+Definition ord (fv : val) (v : Z) (ovv r so bv : val) (k : Z) (sx : list Z) (h : heap) (m o : list Z) : state :=
+  fr [("f", fv); ("v", VInt v); ("o", ovv); ("$ret", r); ("*o", so)]%string bv k sx h m o.
+
+Lemma obj_read_bs rf rp fo po v sa bv k sx h m o st l' so' k' sx' h' m' :
+  bsE prog_env (fbody prog_sbdf_read_objects) (rof (VPtr rf fo) v 1 (VPtr rp po) 0 rol0 sa bv k sx h m o) (OReturn (VInt st) (rof (VPtr rf fo) v 1 (VPtr rp po) 0 l' so' bv k' sx' h' m' o)) ->
+  storable so' = true ->
+  bsE prog_env (fbody prog_sbdf_obj_read) (ord (VPtr rf fo) v (VPtr rp po) VUndef sa bv k sx h m o)
+    (OReturn (VInt st) (ord (VPtr rf fo) v (VPtr rp po) (VInt st) so' bv k' sx' h' m' o)).
+Proof.
+  intros B St. destruct l'. revert B. unfold ord, fr. unro. cbn [fbody prog_sbdf_obj_read app]. intros B.
+  eapply bsE_seq; [eapply bsE_call; [reflexivity|evoa; chk7; evoa; chk7; reflexivity|reflexivity|exact B|evoa; destruct so'; try discriminate St; evoa; reflexivity]|].
+  eapply bsE_return. evoa. reflexivity.
+Qed.
+
+Theorem obj_read_fixed_source rf rp fo po k sx m h v : is_arr v = false ->
+  exists f0, forall f, (f0 <= f)%nat -> exists fin,
+    callC prog_env f prog_sbdf_obj_read [VPtr rf fo; VInt v; VPtr rp po] m k sx h = OReturn (VInt (fixed_status k sx v 1)) fin /\
+    (fixed_status k sx v 1 = SBDF_OK ->
+       lookup "*o" (vars fin) = Some (VCell (List.length h) 0) /\
+       lookup cells_var (vars fin) = Some (VHeap (h ++ [Some [VInt v; VInt 1; VPtr RIn (zlen m)]])) /\
+       inb fin = m ++ firstn (Z.to_nat (usize v * 1)) sx /\ lookup strm_var (vars fin) = Some (VBytes (skipn (Z.to_nat (usize v * 1)) sx))) /\
+    (fixed_status k sx v 1 <> SBDF_OK ->
+       lookup "*o" (vars fin) = Some VNull /\
+       (lookup cells_var (vars fin) = Some (VHeap h) \/ lookup cells_var (vars fin) = Some (VHeap (h ++ [None]))) /\ exists m', inb fin = m ++ m').
+Proof.
+  intros Ha. destruct (read_objects_fixed_bs (VInt 0) [] rf rp fo po k sx m h v 1 0 VUndef ltac:(unfold int_min, int_max; lia) Ha) as (l' & so' & k' & sx' & h' & m' & B & St & P1 & P2).
+  pose proof (obj_read_bs rf rp fo po v VUndef (VInt 0) k sx h m [] _ _ _ _ _ _ _ B St) as B2.
+  destruct (bsE_sound _ _ _ _ B2) as (f0 & F). exists f0. intros f Hf. eexists. split; [apply F; exact Hf|]. split.
+  - intros E. destruct (P1 E) as (-> & -> & -> & ->). repeat split; reflexivity.
+  - intros E. destruct (P2 E) as (-> & Hh & mm & ->). split; [reflexivity|]. split; [destruct Hh as [->| ->]; [left|right]; reflexivity|exists mm; reflexivity].
+Qed.
+
+Theorem obj_read_arrays_source rf rp fo po k sx m h v : Forall byte sx -> is_arr v = true ->
+  exists f0, forall f, (f0 <= f)%nat ->
+  match arr_spec k sx m v 1 0 with
+  | EOk qs k' s' m' => exists fin,
+      callC prog_env f prog_sbdf_obj_read [VPtr rf fo; VInt v; VPtr rp po] m k sx h = OReturn (VInt SBDF_OK) fin /\
+      lookup "*o" (vars fin) = Some (VCell (List.length h) 0) /\ lookup cells_var (vars fin) = Some (VHeap (arr_heap h v 1 qs [])) /\ zlen qs = 1 /\
+      inb fin = m' /\ lookup strm_var (vars fin) = Some (VBytes s') /\ lookup fail_var (vars fin) = Some (VInt k')
+  | EErr st => exists fin,
+      callC prog_env f prog_sbdf_obj_read [VPtr rf fo; VInt v; VPtr rp po] m k sx h = OReturn (VInt st) fin /\
+      lookup "*o" (vars fin) = Some VNull /\
+      (lookup cells_var (vars fin) = Some (VHeap h) \/ lookup cells_var (vars fin) = Some (VHeap (h ++ [None])) \/ lookup cells_var (vars fin) = Some (VHeap (h ++ [None; None]))) /\
+      prefix_of m (inb fin)
+  end.
+Proof.
+  intros Hs Ha. pose proof (read_objects_arr_bs (VInt 0) [] rf rp fo po k sx h m v 1 0 VUndef Hs ltac:(unfold int_min, int_max; lia) Ha) as B.
+  destruct (arr_spec k sx m v 1 0) as [qs k' s' m'|st].
+  - destruct B as (l' & B & Hz). pose proof (obj_read_bs rf rp fo po v VUndef (VInt 0) k sx h m [] _ _ _ _ _ _ _ B eq_refl) as B2.
+    destruct (bsE_sound _ _ _ _ B2) as (f0 & F). exists f0. intros f Hf. eexists. split; [apply F; exact Hf|]. repeat split; try reflexivity. exact Hz.
+  - destruct B as (l' & k' & s' & h' & m' & B & Hh & Pf). pose proof (obj_read_bs rf rp fo po v VUndef (VInt 0) k sx h m [] _ _ _ _ _ _ _ B eq_refl) as B2.
+    destruct (bsE_sound _ _ _ _ B2) as (f0 & F). exists f0. intros f Hf. eexists. split; [apply F; exact Hf|]. split; [reflexivity|]. split; [|exact Pf].
+    destruct Hh as [->|[->| ->]]; [left|right; left|right; right]; reflexivity.
+Qed.
